@@ -317,6 +317,41 @@ theorem pick_ok (o : Out) (e : Option Bool) (h : OutOK o e) : pick o e = e := by
   obtain ⟨h1, h2, h3⟩ := h
   cases o <;> simp_all [pick]
 
+/-- the items the rewriter drops from an IN list are not values of the cell -/
+theorem inKeep_contains (g : Option Guar) (cell : Cell) (items : List Val) (h : GOK g cell) (v : Val)
+    (hc : cell = some v) : (inKeep g items).contains v = items.contains v := by
+  cases g with
+  | none => rfl
+  | some g =>
+    obtain ⟨hv, _⟩ := h g rfl
+    cases g with
+    | null => rfl
+    | maybe lo hi => rfl
+    | notNull lo hi =>
+      obtain ⟨v', hv', hiv⟩ := hv
+      rw [hc] at hv'
+      cases hv'
+      have hkeep : (!(bGt lo v || bLt hi v)) = true := by
+        cases h1 : bGt lo v with
+        | true => exact absurd rfl (ne_of_lt v v (bGt_spec lo hi v v h1 hiv))
+        | false =>
+          cases h2 : bLt hi v with
+          | true => exact absurd rfl (ne_of_lt v v (bLt_spec lo hi v v h2 hiv))
+          | false => rfl
+      simp only [inKeep]
+      cases hm : items.contains v with
+      | true =>
+        rw [List.contains_iff_mem] at hm ⊢
+        exact List.mem_filter.mpr ⟨hm, hkeep⟩
+      | false =>
+        cases hm' : (items.filter (fun i => !(bGt lo i || bLt hi i))).contains v with
+        | false => rfl
+        | true =>
+          rw [List.contains_iff_mem] at hm'
+          have := (List.mem_filter.mp hm').1
+          rw [← List.contains_iff_mem, hm] at this
+          cases this
+
 /-- under valid guarantees the simplified predicate evaluates like the original one -/
 theorem evalS_eq (gs : List Guar) (r : Row) (h : ∀ c, GOK gs[c]? (cellOf r c)) (p : Pred) :
     evalS gs r p = eval3 r p := by
@@ -324,7 +359,16 @@ theorem evalS_eq (gs : List Guar) (r : Row) (h : ∀ c, GOK gs[c]? (cellOf r c))
   | cmp c op l => exact pick_ok _ _ (dec_sound gs r h (.cmp c op l))
   | isNull c => exact pick_ok _ _ (dec_sound gs r h (.isNull c))
   | notNull c => exact pick_ok _ _ (dec_sound gs r h (.notNull c))
-  | inList c neg items => exact pick_ok _ _ (dec_sound gs r h (.inList c neg items))
+  | inList c neg items =>
+    have e : eval3 r (.inList c neg (inKeep gs[c]? items)) = eval3 r (.inList c neg items) := by
+      simp only [eval3]
+      cases hc : cellOf r c with
+      | none => rfl
+      | some v =>
+        simp only [Option.map_some]
+        rw [inKeep_contains gs[c]? (cellOf r c) items (h c) v hc]
+    simp only [evalS, e]
+    exact pick_ok _ _ (dec_sound gs r h (.inList c neg items))
   | and a b iha ihb => simp only [evalS, eval3, iha, ihb]
   | or a b iha ihb => simp only [evalS, eval3, iha, ihb]
   | not a ih => simp only [evalS, eval3, ih]
